@@ -2,7 +2,8 @@
    Conventions: [pick 0 p l] is numpy's l[p]; [invperm p] = argsort p; sub2ind/ind2sub are F-order (first index fastest);
    den_* is the array an object denotes (v0 outside the shape). Operations return [option]: None = request rejected. *)
 From Coq Require Import List Arith Bool ZArith Ring.
-From PV Require Import Base.Index Base.Perm Base.Sum Np.Array Model.Sparse Model.Repr Model.C07Ops Proofs.C07Proofs.
+From PV Require Import Base.Index Base.Perm Base.Sum Np.Array Model.Sparse Model.Repr Model.C07Ops Model.C07Ops2
+  Proofs.C07Proofs Proofs.C07Reshape Proofs.C07Tucker Proofs.C07Holders.
 Import ListNotations.
 
 Section C07.
@@ -132,6 +133,97 @@ Theorem C07_repr_agree_squeeze : forall (T : dense V) (S : sparse V), wf_dense T
   | _, _ => False
   end.
 Proof. exact (squeeze_repr_agree v0). Qed.
+
+(* ---------------------------------------------------------------- second wave *)
+
+(* sparse reshape of a mode SUBSET (distinct modes, any order) is a bijection of index sets with an explicit inverse
+   [unreshape_row]: every index j of the result shape (kept ++ new) has exactly one source index, the result denotes
+   exactly the re-indexed array (v0 outside the shape), its stored subscripts are in range, and reshaping the trailing
+   new modes back to the sizes of the removed modes followed by the permutation argsort(keep ++ old) that restores the
+   mode order returns the identical stored object *)
+Theorem C07_reshape_sparse_subset : forall (S : sparse V) s' old,
+  Forall (fun k => k < length (sshape S)) old -> NoDup old -> size s' = size (pick 0 old (sshape S)) ->
+  Forall (fun j => inb (sshape S) j = true) (ssubs S) ->
+  let s := sshape S in
+  let keep := keep_modes (length s) old in
+  exists R, reshape_sp S s' old = Some R /\ sshape R = pick 0 keep s ++ s' /\
+    (forall j, inb (sshape R) j = true ->
+       inb s (unreshape_row s s' old j) = true /\ reshape_row s s' old (unreshape_row s s' old j) = j /\
+       (forall i, inb s i = true -> reshape_row s s' old i = j -> i = unreshape_row s s' old j)) /\
+    (forall i, inb s i = true -> unreshape_row s s' old (reshape_row s s' old i) = i) /\
+    (forall j, den_sp v0 R j = if inb (sshape R) j then den_sp v0 S (unreshape_row s s' old j) else v0) /\
+    Forall (fun j => inb (sshape R) j = true) (ssubs R) /\
+    exists R2, reshape_sp R (pick 0 old s) (seq (length keep) (length s')) = Some R2 /\
+      sshape R2 = pick 0 (rs_order (length s) old) s /\
+      permute_sp R2 (invperm (rs_order (length s) old)) = Some S.
+Proof. exact (reshape_sparse_subset_bijection v0 isz). Qed.
+
+(* ttensor.permute with a SPARSE core: same index law, core values / nnz / well-formedness kept, inverse order returns
+   the identical object; and the sparse-core holder denotes the same array as the holder with the expanded core *)
+Theorem C07_permute_tucker_sparse_core : forall (T : sttensor V) p,
+  length (sshape (stcore T)) = length (stfactors T) ->
+  Forall (fun j => length j = length (stfactors T)) (ssubs (stcore T)) ->
+  is_perm p (length (stfactors T)) ->
+  exists R, permute_st T p = Some R /\ stshape R = pick 0 p (stshape T) /\
+    sshape (stcore R) = pick 0 p (sshape (stcore T)) /\ svals (stcore R) = svals (stcore T) /\
+    nnz (stcore R) = nnz (stcore T) /\ (wf_sp isz (stcore T) -> wf_sp isz (stcore R)) /\
+    (forall i, length i = length (stfactors T) ->
+       den_st v0 v1 vadd vmul R i = den_st v0 v1 vadd vmul T (pick 0 (invperm p) i)) /\
+    permute_st R (invperm p) = Some T.
+Proof. exact (permute_stucker_correct V v0 v1 vadd vmul vsub vopp isz Vring). Qed.
+
+Theorem C07_tucker_sparse_core_expand : forall (T : sttensor V) i,
+  Forall (fun j => inb (sshape (stcore T)) j = true) (ssubs (stcore T)) ->
+  den_t v0 v1 vadd vmul (st_dense v0 T) i = den_st v0 v1 vadd vmul T i.
+Proof. exact (den_st_dense V v0 v1 vadd vmul). Qed.
+
+Theorem C07_repr_agree_permute_sparse_core : forall (T : dense V) (Ts : sttensor V) p N,
+  wf_dense T -> length (dshape T) = N -> length (sshape (stcore Ts)) = N -> length (stfactors Ts) = N ->
+  Forall (fun j => length j = N) (ssubs (stcore Ts)) -> is_perm p N ->
+  (forall i, length i = N -> den_st v0 v1 vadd vmul Ts i = den_dense v0 T i) ->
+  exists T' Ts', permute_d v0 T p = Some T' /\ permute_st Ts p = Some Ts' /\
+    (forall i, length i = N -> den_st v0 v1 vadd vmul Ts' i = den_dense v0 T' i).
+Proof. exact (permute_repr_agree_st V v0 v1 vadd vmul vsub vopp isz Vring). Qed.
+
+(* dense and sparse holders agree on a subset reshape: the dense route is permute(keep ++ old) ; reshape(kept ++ new) *)
+Theorem C07_repr_agree_reshape_subset : forall (T : dense V) (S : sparse V) s' old,
+  wf_dense T -> sshape S = dshape T ->
+  Forall (fun k => k < length (dshape T)) old -> NoDup old -> size s' = size (pick 0 old (dshape T)) ->
+  Forall (fun j => inb (sshape S) j = true) (ssubs S) ->
+  (forall i, inb (dshape T) i = true -> den_sp v0 S i = den_dense v0 T i) ->
+  let s := dshape T in
+  exists T1 T2 S', permute_d v0 T (rs_order (length s) old) = Some T1 /\
+    reshape_d v0 T1 (pick 0 (keep_modes (length s) old) s ++ s') = Some T2 /\
+    reshape_sp S s' old = Some S' /\ sshape S' = dshape T2 /\
+    forall j, inb (dshape T2) j = true -> den_sp v0 S' j = den_dense v0 T2 j.
+Proof. exact (reshape_subset_repr_agree v0). Qed.
+
+(* pyttb offers reshape / squeeze only on tensor and sptensor; Kruskal / Tucker (dense or sparse core) holders go through
+   full().  Holders of one array give the identical reshaped / squeezed dense tensor, re-indexed by the same formulas. *)
+Theorem C07_repr_agree_reshape_holders : forall (K : ktensor V) (T : ttensor V) (Ts : sttensor V) s',
+  tshape T = kshape K -> stshape Ts = kshape K -> size s' = size (kshape K) ->
+  (forall i, inb (kshape K) i = true ->
+     den_t v0 v1 vadd vmul T i = den_k v0 v1 vadd vmul K i /\ den_st v0 v1 vadd vmul Ts i = den_k v0 v1 vadd vmul K i) ->
+  exists R, reshape_d v0 (full_k v0 v1 vadd vmul K) s' = Some R /\ reshape_d v0 (full_t v0 v1 vadd vmul T) s' = Some R /\
+    reshape_d v0 (full_st v0 v1 vadd vmul Ts) s' = Some R /\ dshape R = s' /\
+    (forall i, inb s' i = true -> den_dense v0 R i = den_k v0 v1 vadd vmul K (ind2sub (kshape K) (sub2ind s' i))) /\
+    (forall i, inb (kshape K) i = true -> den_dense v0 R (ind2sub s' (sub2ind (kshape K) i)) = den_k v0 v1 vadd vmul K i) /\
+    reshape_d v0 R (kshape K) = Some (full_k v0 v1 vadd vmul K).
+Proof. exact (reshape_holders_agree V v0 v1 vadd vmul). Qed.
+
+Theorem C07_repr_agree_squeeze_holders : forall (K : ktensor V) (T : ttensor V) (Ts : sttensor V),
+  tshape T = kshape K -> stshape Ts = kshape K -> forallb (Nat.ltb 0) (kshape K) = true ->
+  (forall i, inb (kshape K) i = true ->
+     den_t v0 v1 vadd vmul T i = den_k v0 v1 vadd vmul K i /\ den_st v0 v1 vadd vmul Ts i = den_k v0 v1 vadd vmul K i) ->
+  squeeze_d v0 (full_t v0 v1 vadd vmul T) = squeeze_d v0 (full_k v0 v1 vadd vmul K) /\
+  squeeze_d v0 (full_st v0 v1 vadd vmul Ts) = squeeze_d v0 (full_k v0 v1 vadd vmul K) /\
+  match squeeze_d v0 (full_k v0 v1 vadd vmul K) with
+  | SqT R => wf_dense R /\ dshape R = sqz (kshape K) (kshape K) /\
+             (forall i, inb (kshape K) i = true ->
+                inb (dshape R) (sqz (kshape K) i) = true /\ den_dense v0 R (sqz (kshape K) i) = den_k v0 v1 vadd vmul K i)
+  | SqScalar v => sqz (kshape K) (kshape K) = [] /\ (forall i, inb (kshape K) i = true -> v = den_k v0 v1 vadd vmul K i)
+  end.
+Proof. exact (squeeze_holders_agree V v0 v1 vadd vmul). Qed.
 End C07.
 
 Print Assumptions C07_permute_dense.
@@ -146,6 +238,13 @@ Print Assumptions C07_squeeze_sparse.
 Print Assumptions C07_repr_agree_permute.
 Print Assumptions C07_repr_agree_reshape.
 Print Assumptions C07_repr_agree_squeeze.
+Print Assumptions C07_reshape_sparse_subset.
+Print Assumptions C07_permute_tucker_sparse_core.
+Print Assumptions C07_tucker_sparse_core_expand.
+Print Assumptions C07_repr_agree_permute_sparse_core.
+Print Assumptions C07_repr_agree_reshape_subset.
+Print Assumptions C07_repr_agree_reshape_holders.
+Print Assumptions C07_repr_agree_squeeze_holders.
 
 (* non-vacuity on non-symmetric instances: 2x3x4 with the non-involutive order [2;0;1] *)
 Example C07_example_permute :
@@ -180,4 +279,52 @@ Example C07_example_kt :
   den_k 0%Z 1%Z Z.add Z.mul K [1; 2] = 66%Z /\
   option_map (fun R => den_t 0%Z 1%Z Z.add Z.mul R [1; 2]) (permute_t 0%Z Tk [1; 0]) = Some (den_t 0%Z 1%Z Z.add Z.mul Tk [2; 1]) /\
   den_t 0%Z 1%Z Z.add Z.mul Tk [2; 1] = 105%Z.
+Proof. repeat split; reflexivity. Qed.
+
+(* second wave: subset reshape with the non-ascending mode list [2;0] on 2x3x4 (kept mode 1, new shape 2x4):
+   forward map, inverse map, denotation through the inverse, and the round trip back to the stored object *)
+Example C07_example_reshape_subset :
+  let S := mkSp [2; 3; 4] [[1; 2; 3]; [0; 1; 0]] [5; 7]%Z in
+  let R := mkSp [3; 2; 4] [[2; 1; 3]; [1; 0; 0]] [5; 7]%Z in
+  reshape_sp S [2; 4] [2; 0] = Some R /\
+  keep_modes 3 [2; 0] = [1] /\ rs_order 3 [2; 0] = [1; 2; 0] /\ invperm (rs_order 3 [2; 0]) = [2; 0; 1] /\
+  reshape_row [2; 3; 4] [2; 4] [2; 0] [1; 2; 3] = [2; 1; 3] /\
+  unreshape_row [2; 3; 4] [2; 4] [2; 0] [2; 1; 3] = [1; 2; 3] /\
+  unreshape_row [2; 3; 4] [2; 4] [2; 0] [0; 1; 2] = [1; 0; 1] /\
+  reshape_row [2; 3; 4] [2; 4] [2; 0] [1; 0; 1] = [0; 1; 2] /\
+  den_sp 0%Z R [2; 1; 3] = 5%Z /\ den_sp 0%Z S (unreshape_row [2; 3; 4] [2; 4] [2; 0] [2; 1; 3]) = 5%Z /\
+  reshape_sp R [4; 2] [1; 2] = Some (mkSp [3; 4; 2] [[2; 3; 1]; [1; 0; 0]] [5; 7]%Z) /\
+  permute_sp (mkSp [3; 4; 2] [[2; 3; 1]; [1; 0; 0]] [5; 7]%Z) [2; 0; 1] = Some S.
+Proof. repeat split; reflexivity. Qed.
+
+(* the dense route of the same request: permute by keep ++ old = [1;2;0], then reshape to 3x2x4 *)
+Example C07_example_reshape_subset_dense :
+  let T := mkDense [2; 3; 4] (map Z.of_nat (seq 0 24)) in
+  option_map (fun R => (dshape R, den_dense 0%Z R [2; 1; 3]))
+    (match permute_d 0%Z T [1; 2; 0] with Some T1 => reshape_d 0%Z T1 [3; 2; 4] | None => None end)
+  = Some ([3; 2; 4], den_dense 0%Z T [1; 2; 3]) /\ den_dense 0%Z T [1; 2; 3] = 23%Z.
+Proof. repeat split; reflexivity. Qed.
+
+(* Tucker with a sparse 2x1x2 core, factors 3x2, 2x1, 2x2, non-involutive order [2;0;1] *)
+Example C07_example_tucker_sparse_core :
+  let Ts := mkST (mkSp [2; 1; 2] [[1; 0; 0]; [0; 0; 1]] [2; 3]%Z)
+                 [[[1; 2]; [3; 4]; [0; 5]]; [[5]; [7]]; [[1; -1]; [2; 3]]]%Z in
+  option_map (fun R => (stshape R, sshape (stcore R), ssubs (stcore R))) (permute_st Ts [2; 0; 1])
+    = Some ([2; 3; 2], [2; 2; 1], [[0; 1; 0]; [1; 0; 0]]) /\
+  option_map (fun R => den_st 0%Z 1%Z Z.add Z.mul R [1; 2; 0]) (permute_st Ts [2; 0; 1])
+    = Some (den_st 0%Z 1%Z Z.add Z.mul Ts [2; 0; 1]) /\
+  den_st 0%Z 1%Z Z.add Z.mul Ts [2; 0; 1] = 100%Z /\
+  den_t 0%Z 1%Z Z.add Z.mul (st_dense 0%Z Ts) [2; 0; 1] = 100%Z.
+Proof. repeat split; reflexivity. Qed.
+
+(* reshape / squeeze through full() of a Kruskal holder: 2x1x3 of rank 2 *)
+Example C07_example_holders :
+  let K := mkK [2; 3]%Z [[[1; 2]; [3; 4]]; [[5; 6]]; [[1; 0]; [0; 1]; [2; 2]]]%Z in
+  option_map (fun R => den_dense 0%Z R [2; 1]) (reshape_d 0%Z (full_k 0%Z 1%Z Z.add Z.mul K) [3; 2])
+    = Some (den_k 0%Z 1%Z Z.add Z.mul K (ind2sub [2; 1; 3] (sub2ind [3; 2] [2; 1]))) /\
+  ind2sub [2; 1; 3] (sub2ind [3; 2] [2; 1]) = [1; 0; 2] /\ den_k 0%Z 1%Z Z.add Z.mul K [1; 0; 2] = 204%Z /\
+  match squeeze_d 0%Z (full_k 0%Z 1%Z Z.add Z.mul K) with
+  | SqT R => dshape R = [2; 3] /\ den_dense 0%Z R [1; 2] = 204%Z
+  | SqScalar _ => False
+  end.
 Proof. repeat split; reflexivity. Qed.
